@@ -126,6 +126,8 @@ def check(ctx):
                 continue
             if key == "encrypt::CoseRecipientBuilder::aad":
                 continue  # private helper of create_ciphertext: C05 R-3
+            if not f.is_pub and key not in B.EFFECTS:
+                continue  # not part of the builder's API: public methods are analysed with their private helpers inlined
             if key in B.EFFECTS:
                 want = [tuple(x) for x in B.EFFECTS[key]]
                 ok = sorted(map(repr, effs)) == sorted(map(repr, want)) and rt == ("param", 0)
